@@ -152,8 +152,97 @@ def h01r(c, n=1, mode="S"):
             c.ob("refused.not-sent", len(sent) == 0)
 
 
+def _order_loss(c, o, size_key="size"):
+    """worst-case loss of one real simulated order from its fragments, remainder and SP liability (exchange rules)"""
+    sim = o.simulated
+    win = lose = 0
+    for (_, p, s) in sim.matched:
+        if o.side == "BACK":
+            win, lose = win + (p - 1) * s, lose - s
+        else:
+            win, lose = win - (p - 1) * s, lose + s
+    kind = o.order_type.ORDER_TYPE.name
+    if kind == "LIMIT":
+        if not o.complete:
+            r = sim.size_remaining
+            p = o.order_type.price
+            if o.side == "BACK":
+                lose = lose - r
+            else:
+                win = win - (p - 1) * r
+    elif not sim.matched:
+        # an SP order not yet reconciled risks its liability
+        if o.side == "BACK":
+            lose = lose - o.order_type.liability
+        else:
+            win = win - o.order_type.liability
+    return c.smax(-c.smin(win, lose), 0)
+
+
+def h01b(c):
+    """later history cannot raise the loss: one real simulated event (passive fill, suspension lapse, SP reconciliation, cancel,
+    removal of another runner) on an acknowledged order in an arbitrary state: the order's worst-case loss afterwards is not
+    above the one before (that was counted when the order was accepted)"""
+    from . import simstate as ss
+    from flumine.order.orderpackage import OrderPackageType
+    with cm.config_set(simulated=True):
+        fl, (client,), (strategy,) = cm.new_sim()
+        mw = fl._market_middleware[0]
+        step = c.choose("event", ["traded", "suspend", "sp", "cancel", "other-runner-removed"])
+        kind = c.choose("kind", ["LIMIT", "LOC", "MOC"]) if step == "sp" else "LIMIT"
+        c.tag("event", step); c.tag("kind", kind)
+        tp = 2.0
+        tv0 = c.cents("tv0", 0, 1000000)
+        bk1 = cm.book([cm.runner(1, tv=[{"price": tp, "size": tv0}]), cm.runner(2)], version=7)
+        market = cm.add_market(fl, bk1)
+        mw(market)
+        if kind == "LIMIT":
+            o, d = ss.resting_limit(c, "o", fl, market, strategy, 100, price_values=[1.5, 2.0, 3.0, 11.0, 1000.0], max_frags=1,
+                                    status=OrderStatus.CANCELLING if step == "cancel" else OrderStatus.EXECUTABLE)
+        else:
+            side = c.choose("o_side", ["BACK", "LAY"])
+            liab = c.cents("o_liability", 1, 1000000)
+            o = cm.mk_loc(strategy, side, liab, c.pick("o_price", [1.5, 3.0, 1000.0])) if kind == "LOC" else cm.mk_moc(strategy, side, liab)
+            cm.place_resting(fl, market, strategy, o, 100)
+        c.tag("side", o.side)
+        before = _order_loss(c, o)
+        tol = 0.01
+        r1 = cm.runner(1, tv=[{"price": tp, "size": tv0}])
+        bk2 = cm.book([r1, cm.runner(2)], version=7, pt_ms=cm.T0_MS + 1000)
+        with c.guard("event"):
+            if step == "traded":
+                r1.ex.traded_volume = [{"price": tp, "size": tv0 + c.cents("traded_delta", 0, 2000000)}]
+                o.simulated._piq = c.cents("piq", 0, 1000000)
+                market(bk2); mw(market)
+            elif step == "suspend":
+                bk2.status, bk2.version = "SUSPENDED", 8
+                market(bk2); mw(market)
+            elif step == "sp":
+                bk2.bsp_reconciled, bk2.inplay = True, True
+                sp = c.pick("actual_sp", [1.01, 1.5, 2.0, 7.4, 30.0, 1000.0])
+                r1.sp = cm.SP(actualSP=sp)
+                # the exchange works the stake of an SP lay out of the liability and rounds it to the cent: half a cent of
+                # stake times the odds is the most the liability can move
+                tol = 0.01 + 0.005 * (sp - 1)
+                market(bk2); mw(market)
+                c.cover("sp")
+            elif step == "cancel":
+                o.update_data["size_reduction"] = c.cents("size_reduction", 1, 2000000) if c.choose("partial", [True, False]) else None
+                client.execution.handler(ss.package(fl, market, [o], OrderPackageType.CANCEL))
+            else:
+                bk2.runners[1].status = "REMOVED"
+                bk2.runners[1].adjustment_factor = c.cents("adjustment_factor", 1, 9900)
+                market(bk2); mw(market)
+            fl._process_simulated_orders(market)
+        after = _order_loss(c, o)
+        c.observe("loss_before", before)
+        c.observe("loss_after", after)
+        c.ob("worst-case-loss-not-raised", after <= before + tol)
+        c.cover("event")
+
+
 OUT = ["more than n prior orders per selection", "prices outside the finite set in mode S / sizes outside the finite set in mode P",
-       "Betdaq UPDATE (price/size change) path", "H01b (later history cannot raise the loss) is not built in this round: the 'consequently' sentence rests on H01a + C04/C05/C16"]
+       "Betdaq UPDATE (price/size change) path", "H01b covers one event on one order (composition over orders and events is the induction argument, not a query)"]
 HARNESSES = [
     Harness("H01a-S", h01a, quick=dict(n=1, mode="S"), thorough=dict(n=2, mode="S"), pattern="P2 inductive step", requires=["accepted", "refused"],
             wall_s=(300, 3000), max_paths=(150000, 5000000), outside=OUT),
@@ -161,6 +250,7 @@ HARNESSES = [
             wall_s=(300, 3000), max_paths=(150000, 5000000), outside=OUT),
     Harness("H01a-mkt", h01a, quick=dict(n=1, mode="S", market_limit=True, others=1, winners=(1,), sel_limit_too=False), thorough=dict(n=1, mode="S", market_limit=True, others=2),
             pattern="P2 inductive step", requires=["accepted", "refused"], wall_s=(300, 3000), max_paths=(150000, 5000000), outside=OUT),
+    Harness("H01b", h01b, pattern="P2 inductive step", requires=["event", "sp"], outside=OUT),
     Harness("H01r-S", h01r, quick=dict(n=1, mode="S"), thorough=dict(n=2, mode="S"), pattern="P2 inductive step", requires=["accepted", "refused"],
             wall_s=(300, 3000), max_paths=(150000, 5000000), outside=OUT),
     Harness("H01r-P", h01r, quick=dict(n=1, mode="P"), thorough=dict(n=2, mode="P"), pattern="P2 inductive step", requires=["accepted"],
